@@ -24,7 +24,8 @@ func (rr *SIG) Sign(k crypto.Signer, m *Msg) ([]byte, error) {
 	rr.Hdr = RR_Header{Name: ".", Rrtype: TypeSIG, Class: ClassANY, Ttl: 0}
 	rr.OrigTtl, rr.TypeCovered, rr.Labels = 0, 0, 0
 
-	buf := make([]byte, m.Len()+Len(rr))
+	// PackBuffer only packs into buf when it can hold the uncompressed message.
+	buf := make([]byte, msgLenWithCompressionMap(m, nil)+Len(rr))
 	mbuf, err := m.PackBuffer(buf)
 	if err != nil {
 		return nil, err
